@@ -4,8 +4,8 @@ import copy
 from ..core.shrink import list_removals
 from . import gen, ir
 
-ALL_EDITS = ["var", "ver", "comment", "lit", "default", "unrelated", "reorder", "ext", "move", "respell", "path"]
-INSIDE_EDITS = ["var", "ver", "comment", "lit", "default"]
+ALL_EDITS = ["var", "ver", "comment", "lit", "rtx", "default", "unrelated", "reorder", "ext", "move", "respell", "path"]
+INSIDE_EDITS = ["var", "ver", "comment", "lit", "rtx", "default"]
 OUTSIDE_EDITS = ["unrelated", "reorder", "ext", "move", "respell"]
 
 
@@ -90,7 +90,18 @@ def gen_history(streams, tier, profile):
             ops.append(op)
             loads_after()
         elif k == "edit":
-            e = gen.gen_edit(hrng, cur, edit_kinds)
+            e = None
+            if feat.get("layout") and "lit" in profile["edits"] and hrng.random() < 0.5:
+                want = hrng.choice(["lit", "rtx"]) if "rtx" in profile["edits"] else "lit"
+                e = gen.gen_edit(hrng, cur, [want])
+                if e["kind"] != want:
+                    e = None
+            if e is None and feat.get("vardefaults") and "var" in profile["edits"] and hrng.random() < 0.4:
+                e = gen.gen_edit(hrng, cur, ["var"])
+                if e["kind"] != "var":
+                    e = None
+            if e is None:
+                e = gen.gen_edit(hrng, cur, edit_kinds)
             cur = gen.apply_edit(cur, e)
             nedits += 1
             ops.append({"op": "edit", "edit": e})
@@ -106,6 +117,9 @@ def gen_history(streams, tier, profile):
             ops.append({"op": "switch_store", "store": gen_store(cfg, profile.get("stores", ("local", "memory")))})
         elif k == "mutate" and cur["vars"]:
             v = hrng.choice(sorted(cur["vars"]))
+            if any(ir.default_var(d) == v for f in cur["funcs"].values() for (_, d) in f["params"]):
+                continue    # a default keeps the object bound at definition time: rebinding the module variable
+                            # in a running process does not reach it (the cone model has no notion of that)
             kind = cur["vars"][v]["kind"]
             op = {"op": "mutate", "var": v, "value": hrng.choice(gen.VAR_VALUES[kind]), "inplace": hrng.random() < 0.5}
             pr = proc()
@@ -125,7 +139,7 @@ def gen_history(streams, tier, profile):
         out = []
         for k, op in enumerate(ops):
             out.append(op)
-            if op["op"] == "edit" and op["edit"].get("f") and op["edit"]["kind"] in ("ver", "comment", "lit", "respell") \
+            if op["op"] == "edit" and op["edit"].get("f") and op["edit"]["kind"] in ("ver", "comment", "lit", "rtx", "respell") \
                     and cfg.random() < 0.6:
                 if k + 1 < len(ops) and ops[k + 1]["op"] == "restart":
                     ops[k + 1] = {"op": "redefine", "f": op["edit"]["f"]}
@@ -197,6 +211,8 @@ def shrink_history(case):
     for v in sorted(prog["vars"]):
         if any(it.get("name") == v for f in prog["funcs"].values() for it in f["body"]):
             continue
+        if any(ir.default_var(d) == v for f in prog["funcs"].values() for (_, d) in f["params"]):
+            continue
         c = copy.deepcopy(case)
         del c["prog"]["vars"][v]
         yield c
@@ -228,11 +244,15 @@ def shrink_history(case):
                 c = copy.deepcopy(case)
                 c["prog"]["funcs"][fn]["body"][i]["multiline"] = False
                 yield c
+            if it.get("join"):
+                c = copy.deepcopy(case)
+                c["prog"]["funcs"][fn]["body"][i]["join"] = False
+                yield c
             if it.get("pathform", "lit") != "lit":
                 c = copy.deepcopy(case)
                 c["prog"]["funcs"][fn]["body"][i]["pathform"] = "lit"
                 yield c
-    if len(prog["mods"]) > 1:
+    if len(prog["mods"]) > 1 and not any(it["t"] == "shadow" for f in prog["funcs"].values() for it in f["body"]):
         c = copy.deepcopy(case)
         for f in c["prog"]["funcs"].values():
             f["mod"] = "m0"
@@ -258,6 +278,10 @@ def feature_tags(case):
         if f.get("pathform", "lit") != "lit":
             t.add("pathform:var")
         for (n, d) in f["params"]:
+            if ir.default_var(d):
+                t.add("default")
+                t.add("default:var")
+                continue
             if d != ir.NODEFAULT:
                 t.add("default")
                 if not d and d is not None:
@@ -276,6 +300,8 @@ def feature_tags(case):
                 t.add("arg:" + a["k"])
             if it.get("wrap"):
                 t.add("wrap:" + it["wrap"])
+            if it.get("join"):
+                t.add("join")
     if prog.get("rec_builtin"):
         t.add("rec:builtin")
     if len(prog["mods"]) > 1:
